@@ -87,7 +87,7 @@ class Report:
                     new_viol.append((r, k, where, msg))
         for (k, where, msg, text) in known_hit:
             lines.append("KNOWN-FINDING: property=%s key=%s %s" % (self.prop, k, text))
-        replay_dir = os.path.join(VERIF, "replay")
+        replay_dir = os.environ.get("PEST_REPLAY_DIR") or os.path.join(VERIF, "replay")
         replay = None
         if new_viol:
             os.makedirs(replay_dir, exist_ok=True)
@@ -156,6 +156,7 @@ class Report:
             "level": self.level, "coverage": cov, "assumptions": self.assumptions, "wall_s": round(wall, 2),
             "violations": len(new_viol),
         }
-        os.makedirs(os.path.join(VERIF, "evidence"), exist_ok=True)
-        with open(os.path.join(VERIF, "evidence", "%s.json" % self.prop), "w") as fh:
+        evdir = os.environ.get("PEST_EVIDENCE_DIR") or os.path.join(VERIF, "evidence")
+        os.makedirs(evdir, exist_ok=True)
+        with open(os.path.join(evdir, "%s.json" % self.prop), "w") as fh:
             json.dump(ev, fh, indent=1)
